@@ -974,8 +974,24 @@ func ctxDeriving(call *ssa.Call) (ssa.Value, string, bool) {
 	}
 	// result must be a context (or tuple starting with one)
 	res := call.Call.Signature().Results()
-	if res.Len() == 0 || core.TypeStr(res.At(0).Type()) != "context.Context" {
+	if res.Len() == 0 {
 		return nil, "", false
+	}
+	if core.TypeStr(res.At(0).Type()) != "context.Context" {
+		// … or a result struct of the module that carries the context (results packed into one struct)
+		st, isStruct := res.At(0).Type().Underlying().(*types.Struct)
+		if !isStruct || !strings.HasPrefix(ci.Pkg, core.ModulePath) {
+			return nil, "", false
+		}
+		has := false
+		for i := 0; i < st.NumFields(); i++ {
+			if core.TypeStr(st.Field(i).Type()) == "context.Context" {
+				has = true
+			}
+		}
+		if !has {
+			return nil, "", false
+		}
 	}
 	return ctxArg, ci.Full(), true
 }
